@@ -20,7 +20,7 @@ MANIFEST = {
           'line receivers (one connecting mid-run), 3-4 stores against drains until empty, <=2 (3) preemptions: at '
           'quiescence not (paused and size below 95%), receivers producing iff not paused.',
   'note': 'USE_FLOW_CONTROL=True and CARBON_METRIC_INTERVAL=0 (DESIGN.md I7: the periodic self-metrics would mask a '
-          'lost wake-up for up to a minute).',
+          'lost wake-up for up to a minute). Listening side (mc/listenh.py): connections made while paused, connection limit, port accept state.',
 }
 
 
